@@ -535,8 +535,65 @@ func runOne(seed uint64, n int, out *bufio.Writer) error {
 	}
 	l.startManager()
 	l.afterStep("create")
+	// a fixed opening every history goes through (the shapes of the recorded findings):
+	// sign (stays unlocked) - wrong attempt with the empty passphrase - export - reveal - lock,
+	// then the passphrase followed by a zero byte on the locked manager
+	if _, err := l.w.WM.NewAddress(0); err != nil {
+		return fmt.Errorf("NewAddress: %v", err)
+	}
+	{
+		al, pubs, bis := l.addrList()
+		fmt.Fprintf(out, "A\t%d\t%s\n", n, al)
+		l.afterStep("new-address")
+		fixed := func(kind, pass, pk string) {
+			var err error
+			var p bool
+			as, hl := "-", 0
+			switch kind {
+			case "sh":
+				as, hl = fmt.Sprintf("%d.%d", bis[0][0], bis[0][1]), 32
+				h := r.Bytes(32)
+				err, p = guard(func() error { _, e := l.w.WM.SignHash(pubs[0], h, []byte(pass)); return e })
+			case "ex":
+				var js string
+				err, p = guard(func() error { s, e := l.w.WM.ExportWallet(l.id, pass); js = s; return e })
+				if err == nil {
+					l.search("exported-keystore", []byte(js))
+				}
+			case "mn":
+				err, p = guard(func() error { _, _, e := l.w.WM.GetMnemonic(l.id, pass); return e })
+			case "ck":
+				err, p = guard(func() error { return l.w.KS.CheckPrivPassphrase(l.id, []byte(pass)) })
+			}
+			if err != nil {
+				l.search("error-of-"+kind, []byte(err.Error()))
+			}
+			impl := errClass(err)
+			if p {
+				impl = "panic"
+			}
+			obs := l.obs()
+			sm := 0
+			if l.afterStep(kind + ":" + pk) {
+				sm = 1
+			}
+			fmt.Fprintf(out, "O\t%d\t%s\t%s\t%s\t%d\t\t%s\t%s\t%d\t%s\n", n, kind, hx([]byte(pass)), as, hl, impl, obs, sm, pk)
+			stats["op_"+kind]++
+		}
+		fixed("sh", l.pass, "right")
+		fixed("mn", "", "empty")
+		fixed("ex", l.pass, "right")
+		fixed("mn", l.pass, "right")
+		fixed("ck", l.pass, "right")
+		fixed("mn", l.pass, "right")
+		l.w.KS.ClearPrivKey()
+		fmt.Fprintf(out, "O\t%d\tcl\t\t-\t0\t\tok\t%s\t1\t-\n", n, l.obs())
+		fixed("ex", l.pass+"\x00", "nul-suffix")
+		fixed("ck", l.pass+"\x00\x00", "nul-suffix")
+		fixed("ex", l.pass, "right")
+	}
 	inst := 1
-	steps := 9 + r.Intn(8)
+	steps := 7 + r.Intn(8)
 	for s := 0; s < steps && !l.gone; s++ {
 		switch k := r.Intn(100); {
 		case k < 18:
